@@ -39,6 +39,8 @@ func SelectEqual(v string) func(string) bool {
 	}
 }
 
+const maxInt = int(^uint(0) >> 1)
+
 // asciiToInt converts bytes to int.
 func asciiToInt(bts []byte) (ret int, err error) {
 	// ASCII numbers all start with the high-order bits 0011.
@@ -49,10 +51,14 @@ func asciiToInt(bts []byte) (ret int, err error) {
 		return 0, fmt.Errorf("converting empty bytes to int")
 	}
 	for i := 0; i < n; i++ {
-		if bts[i]&0xf0 != 0x30 {
+		if bts[i] < '0' || bts[i] > '9' {
 			return 0, fmt.Errorf("%s is not a numeric character", string(bts[i]))
 		}
-		ret += int(bts[i]&0xf) * pow(10, n-i-1)
+		d := int(bts[i] - '0')
+		if ret > (maxInt-d)/10 {
+			return 0, fmt.Errorf("%s overflows int", string(bts))
+		}
+		ret = ret*10 + d
 	}
 	return ret, nil
 }
